@@ -38,13 +38,14 @@ fn lexicon(max_entries: usize, user: bool) -> BoxedStrategy<Vec<Entry>> {
         1 => vec(select(&ALPHA[..3]), 1..=7).prop_map(|v| v.concat()),
     ];
     // (key, non-indexed, number of homographs)
-    let spec = (key, prop::bool::weighted(0.15), prop_oneof![20 => 1usize..=3, 2 => 4usize..=20, 1 => Just(127usize)]);
+    // (key, non-indexed, number of homographs, row spelling: CSV syntax variant / escapes, the negative left id used)
+    let spec = (key, prop::bool::weighted(0.15), prop_oneof![20 => 1usize..=3, 2 => 4usize..=20, 1 => Just(127usize)], prop_oneof![3 => Just((0u8, 0u8)), 1 => (0u8..128, 0u8..3)], select(vec![-1i16, -1, -2, -7, i16::MIN]));
     vec(spec, 1..=max_entries)
         .prop_map(move |specs| {
             let pos = pos_from_str(if user { POS_USER1 } else { POS_NOUN });
             let mut v = Vec::new();
             let mut big = false;
-            for (k, ni, mut n) in specs {
+            for (k, ni, mut n, (syntax, esc), neg) in specs {
                 if n > 20 {
                     if big {
                         n = 2;
@@ -54,8 +55,11 @@ fn lexicon(max_entries: usize, user: bool) -> BoxedStrategy<Vec<Entry>> {
                 for j in 0..n {
                     let mut e = Entry::simple(&k, 0, 0, 100 + j as i16, &pos);
                     if ni && j % 2 == 0 {
-                        e.left = -1;
+                        // any negative left id declares the row non-indexed
+                        e.left = neg;
                     }
+                    e.syntax = syntax;
+                    e.esc = esc;
                     v.push(e);
                 }
             }
